@@ -84,6 +84,19 @@ def _mapped_rebinds(f, wrapper_name: str):
   return out
 
 
+def _iteration_targets(f) -> set:
+  out = set()
+  for n in walk_function(f.node):
+    tg = None
+    if isinstance(n, (ast.For, ast.AsyncFor)):
+      tg = n.target
+    elif isinstance(n, ast.comprehension):
+      tg = n.target
+    if tg is not None:
+      out |= {x.id for x in ast.walk(tg) if isinstance(x, ast.Name)}
+  return out
+
+
 def run(ctx: Ctx, rs: RuleSet, tier: str):
   p = ctx.p
   # ---- WMC: factory invocation sites
@@ -97,8 +110,10 @@ def run(ctx: Ctx, rs: RuleSet, tier: str):
         fn = c.func
         if isinstance(fn, ast.Attribute) and fn.attr == 'factory':
           sites.append((f, c))
-        elif isinstance(fn, ast.Name) and fn.id == 'factory' and (
-            fn.id in f.local_names() or fn.id not in f.module.funcs):
+        elif isinstance(fn, ast.Name) and not c.args and not c.keywords and (
+            fn.id in _iteration_targets(f)):
+          # a zero-argument call of an iteration variable: an element of a
+          # collection of callables (the factories) is invoked
           sites.append((f, c))
   for f, c in sites:
     ok = f.qualname in ALLOWED_INVOKERS
@@ -165,20 +180,32 @@ def run(ctx: Ctx, rs: RuleSet, tier: str):
         return pos, unparse(cond.args[0])
     return None
 
+  args_p, kwargs_p = bp.params[1], bp.params[2]
   comps = {}
   for n in walk_function(bp.node):
     if isinstance(n, ast.Assign) and isinstance(n.value, ast.DictComp) and (
         isinstance(n.targets[0], ast.Name)):
       comps[n.targets[0].id] = n.value
-  fk = comps.get('arg_factory_kwargs')
-  vk = comps.get('functool_kwargs')
+  # the two layers are told apart by the polarity of their filter, not by
+  # what the variables are called
+  fk = vk = None
+  FK = VK = None
+  for name, c in comps.items():
+    gen = c.generators[0]
+    if unparse(gen.iter) != f'{kwargs_p}.items()' or name == kwargs_p:
+      continue
+    pr = predicate(gen.ifs[0]) if gen.ifs else None
+    if pr is not None and pr[0] is True and fk is None:
+      fk, FK = c, name
+    elif (pr is None or pr[0] is False) and vk is None:
+      vk, VK = c, name
   ok = False
   detail = 'the two keyword comprehensions were not found'
   if fk is not None and vk is not None:
     pf = predicate(fk.generators[0].ifs[0]) if fk.generators[0].ifs else None
     pv = predicate(vk.generators[0].ifs[0]) if vk.generators[0].ifs else None
     same_src = unparse(fk.generators[0].iter) == unparse(
-        vk.generators[0].iter) == 'kwargs.items()'
+        vk.generators[0].iter) == f'{kwargs_p}.items()'
     ok = (pf is not None and pv is not None and pf[0] is True and
           pv[0] is False and pf[1] == unparse(fk.generators[0].target.elts[1])
           and pv[1] == unparse(vk.generators[0].target.elts[1]) and same_src
@@ -199,10 +226,10 @@ def run(ctx: Ctx, rs: RuleSet, tier: str):
            ctx.loc(bp, bp.node))
   # the kwargs were promoted first (containers holding factories)
   promo = [n for n in g.nodes() if isinstance(g.stmt[n], ast.Assign) and
-           unparse(g.stmt[n].targets[0]) == 'kwargs' and
+           unparse(g.stmt[n].targets[0]) == kwargs_p and
            '_promote_arg_factory' in unparse(g.stmt[n].value)]
   promo_a = [n for n in g.nodes() if isinstance(g.stmt[n], ast.Assign) and
-             unparse(g.stmt[n].targets[0]) == 'args' and
+             unparse(g.stmt[n].targets[0]) == args_p and
              '_promote_arg_factory' in unparse(g.stmt[n].value)]
   comp_nodes = [n for n in g.nodes() if isinstance(g.stmt[n], ast.Assign) and
                 g.stmt[n].value in (fk, vk)]
@@ -212,10 +239,18 @@ def run(ctx: Ctx, rs: RuleSet, tier: str):
   rs.check(ok, rule, f'{bp.qualname}:promoted-first',
            'args and kwargs are promoted (containers with factories become '
            'factories) before they are split', ctx.loc(bp, bp.node))
-  # outermost layer
+  # outermost layer: functools.partial(<accumulated result>, **<value layer>)
   rets = [g.stmt[n] for n in g.nodes() if isinstance(g.stmt[n], ast.Return)]
-  ok = len(rets) == 1 and unparse(rets[0].value) == (
-      'functools.partial(result, **functool_kwargs)')
+  R = None
+  ok = False
+  if len(rets) == 1 and isinstance(rets[0].value, ast.Call) and unparse(
+      rets[0].value.func) == 'functools.partial' and len(
+          rets[0].value.args) == 1 and isinstance(
+              rets[0].value.args[0], ast.Name):
+    R = rets[0].value.args[0].id
+    kws = rets[0].value.keywords
+    ok = (len(kws) == 1 and kws[0].arg is None and VK is not None and
+          unparse(kws[0].value) == VK)
   rs.check(ok, rule, f'{bp.qualname}:outermost',
            f'returns {unparse(rets[0].value) if rets else None}: call-time '
            'keywords override the configured value keywords',
@@ -225,20 +260,35 @@ def run(ctx: Ctx, rs: RuleSet, tier: str):
             if isinstance(n, ast.For) for s in walk_stmts(n.body)
             if isinstance(s, ast.Assign) and isinstance(s.value, ast.Dict)
             and not s.value.keys}
-  rs.check(resets == {'arg_factory_kwargs', 'functool_kwargs'}, rule,
+  rs.check(FK is not None and resets == {FK, VK}, rule,
            f'{bp.qualname}:consumed-once',
            f'keyword dicts reset after use in the positional loop: '
            f'{sorted(resets)}', ctx.loc(bp, bp.node))
   # positional groups alternate by the same predicate
   ok = False
+
+  def _is_partial_call(c, fn_text, star, dstar):
+    return (isinstance(c, ast.Call) and unparse(c.func) == fn_text and
+            len(c.args) == 2 and unparse(c.args[0]) == R and isinstance(
+                c.args[1], ast.Starred) and unparse(c.args[1].value) == star
+            and len(c.keywords) == 1 and c.keywords[0].arg is None and
+            unparse(c.keywords[0].value) == dstar)
+
   for n in walk_function(bp.node):
     if isinstance(n, ast.For) and unparse(n.iter) == (
-        'itertools.groupby(args, is_arg_factory)') and helper_ok:
-      body = unparse(n)
-      ok = ('arg_factory.partial(result, *arg_values, **arg_factory_kwargs)'
-            in body and
-            'functools.partial(result, *arg_values, **functool_kwargs)' in body
-            and '[arg.factory for arg in arg_values]' in body)
+        f'itertools.groupby({args_p}, is_arg_factory)') and helper_ok and (
+            isinstance(n.target, ast.Tuple) and len(n.target.elts) == 2):
+      V = unparse(n.target.elts[1])
+      calls = [c for c in ast.walk(n) if isinstance(c, ast.Call)]
+      fac = any(_is_partial_call(c, 'arg_factory.partial', V, FK)
+                for c in calls)
+      val = any(_is_partial_call(c, 'functools.partial', V, VK) for c in calls)
+      unwrap = any(
+          isinstance(c, ast.ListComp) and isinstance(c.elt, ast.Attribute) and
+          c.elt.attr == 'factory' and unparse(c.elt.value) == unparse(
+              c.generators[0].target) and unparse(c.generators[0].iter) == V
+          for c in ast.walk(n))
+      ok = fac and val and unwrap
   rs.check(ok, rule, f'{bp.qualname}:positional-groups',
            'positional arguments are grouped by the same predicate; factory '
            'groups are bound unwrapped through arg_factory.partial',
